@@ -1066,6 +1066,9 @@ class Planner:
         if rank >= 1:
             choices += ["extract_blocks"]
         c = r.choice(choices)
+        bias = [b for b in self.cfg.get("derive_bias", ()) if b in choices]
+        if bias and r.random() < 0.6:
+            c = r.choice(bias)
         kf = keep_failed
         if c == "expand_derivatives":
             return self.call("ufl.algorithms.expand_derivatives", F, kind="form", keep_failed=kf)
